@@ -38,6 +38,13 @@ static int xfd_kfd = -1, xfd_registered, xfd_calls, xfd_reused;
 
 static void handler(void *c);
 
+static struct iv_fd qfd[2];
+
+static void quiet_in(void *c)
+{
+	sx_fail("C03.handler_in-for-descriptor-that-was-never-ready");
+}
+
 static void ev_register(struct erec *r)
 {
 	struct iv_event *ev = malloc(sizeof(*ev));
@@ -239,9 +246,28 @@ void sx_main(void)
 		sx_leak_check(0);
 		return;
 	}
+	if (sx_opt("twofds", 0)) {
+		/* two quiet descriptors of the owner are registered before its first event (with the raw-event
+		 * transport the wake-up descriptor comes after them in the poll table) */
+		for (i = 0; i < 2; i++) {
+			IV_FD_INIT(&qfd[i]);
+			qfd[i].fd = k_new_generic();
+			qfd[i].cookie = &qfd[i];
+			qfd[i].handler_in = quiet_in;
+			iv_fd_register(&qfd[i]);
+		}
+	}
 	for (i = 0; i < nE; i++) {
 		E[i].id = i;
 		ev_register(&E[i]);
+	}
+	if (sx_opt("twofds", 0)) {
+		/* ordinary loop activity of the owner: one of them goes away again */
+		int c = sx_choose(3);
+		if (c < 2) {
+			sx_cover("event.owner-unregisters-a-descriptor");
+			iv_fd_unregister(&qfd[c]);
+		}
 	}
 	if (sx_opt("withfd", 0)) {
 		xfd = malloc(sizeof(*xfd));
